@@ -4,7 +4,7 @@
 # tier in VERIF_TIER) against it, undoes the change, and prints one line per check.
 # Replays written by these runs go to a scratch directory, not to /verif/replays.
 set -u
-PATCH="$1"; shift
+PATCH="$(readlink -f "$1")"; shift
 cd /verif
 git -C /repo diff --quiet || { echo "/repo has uncommitted changes; refusing"; exit 2; }
 git -C /repo apply "$PATCH" || { echo "patch does not apply"; exit 2; }
